@@ -4,6 +4,8 @@
 
    The harness can only schedule the worker from one blocking point to the next, so a K-level event
    is a short fixed sequence of model events (every one executed by Scanner.step):
+   The model runs with the code's reader (LineReader.code_reader_loops: readLine returns at EOF), the variant
+   the theorems of props/C17.v are about.
      KRun      the worker, released from a sleep, performs ReadSlice turns (ERead) until it sleeps again,
                offers an event (then the consumer receives it at once: ETake) or returns;
      KConfirm  EConfirm; if it was accepted ESetOff, and the worker runs on as in KRun;
@@ -42,9 +44,9 @@ Variable B rpe : nat.
 
 (* the worker runs until it blocks; an offered event is received at once *)
 Definition go (s : st) : st * list obs :=
-  let '(s1, o1) := run_reads B rpe (S (S (length (wfile s)))) s in
+  let '(s1, o1) := run_reads code_reader_loops B rpe (S (S (length (wfile s)))) s in
   match ph s1 with
-  | PSend _ => let '(s2, o2) := step B rpe s1 ETake in (s2, o1 ++ o2)
+  | PSend _ => let '(s2, o2) := step code_reader_loops B rpe s1 ETake in (s2, o1 ++ o2)
   | _ => (s1, o1)
   end.
 
@@ -54,7 +56,7 @@ Definition seq2 (r : st * list obs) (f : st -> st * list obs) : st * list obs :=
 (* [down]: no scanner process exists *)
 Definition kstep (x : bool * st) (k : kev) : (bool * st) * list obs :=
   let '(down, s) := x in
-  let st1 := step B rpe in
+  let st1 := step code_reader_loops B rpe in
   let lift (dn : bool) (r : st * list obs) := ((dn, fst r), snd r) in
   match k with
   | KAppend bs => lift down (st1 s (EAppend bs))
